@@ -2,7 +2,7 @@
 """Self-validation of the monitors: apply each property-breaking change, run the
 quick check(s) that should notice, expect exit 1 + a VIOLATION line, undo the change.
 
-  selftest/run.py [--sandbox DIR] [--only m01,m17] [--with-tests] [--patches DIR] [--jobs-note]
+  selftest/run.py [--sandbox DIR] [--only m01,m17] [--with-tests] [--patches DIR] [--match r4seed] [--no-mutants] [--seeds 1,2,3]
 
 Without --sandbox the change is applied to /repo itself (git -C /repo checkout -- . afterwards;
 /repo must be clean). With --sandbox DIR a scratch git worktree of /repo (DIR/repo) and a copy of
@@ -70,6 +70,8 @@ def main():
     with_tests = False
     patch_dir = None
     seeds = ["1"]
+    match = None
+    no_mutants = False
     i = 0
     while i < len(args):
         if args[i] == "--sandbox":
@@ -84,6 +86,12 @@ def main():
         elif args[i] == "--patches":
             patch_dir = args[i + 1]
             i += 2
+        elif args[i] == "--match":
+            match = args[i + 1]
+            i += 2
+        elif args[i] == "--no-mutants":
+            no_mutants = True
+            i += 1
         elif args[i] == "--seeds":
             seeds = args[i + 1].split(",")
             i += 2
@@ -100,7 +108,7 @@ def main():
     env = dict(os.environ, VERIF_REPO=repo, CARGO_NET_OFFLINE="true")
     results = []
     todo = []
-    for m in MUTANTS:
+    for m in ([] if no_mutants else MUTANTS):
         name, checks = m[0], m[1]
         edits = m[2] if isinstance(m[2], list) else [(m[2], m[3], m[4])]
         if only and not any(name.startswith(o) for o in only):
@@ -112,6 +120,8 @@ def main():
             if os.path.exists(meta):
                 mj = json.load(open(meta))
                 if only and not any(f.startswith(o) for o in only):
+                    continue
+                if match and match not in f:
                     continue
                 if mj.get("outside_quantifier"):
                     print(f"SKIPPED  {f:48} outside the property's quantifier: {mj.get('note', '')[:100]}", flush=True)
